@@ -28,7 +28,16 @@ func replayMode(r *common.Run, sk *sink) {
 }
 
 func runCatchUp(r *common.Run, sk *sink, caseNo int, rng *rand.Rand, seed int64) {
+	runCatchUpKind(r, sk, caseNo, false, rng, seed)
+}
+
+// runCatchUpKind: mostlyOnDisk = 5 of 6 cases use the on-disk state machine (the kind with Sync,
+// streamed snapshots and the widest contract).
+func runCatchUpKind(r *common.Run, sk *sink, caseNo int, mostlyOnDisk bool, rng *rand.Rand, seed int64) {
 	kind := []cluster.SMKind{cluster.OnDisk, cluster.OnDisk, cluster.Concurrent, cluster.Regular}[rng.Intn(4)]
+	if mostlyOnDisk && rng.Intn(3) > 0 {
+		kind = cluster.OnDisk
+	}
 	store := cluster.Pebble
 	if rng.Intn(3) == 0 {
 		store = cluster.Tan
@@ -37,6 +46,11 @@ func runCatchUp(r *common.Run, sk *sink, caseNo int, rng *rand.Rand, seed int64)
 	overhead := uint64(1 + rng.Intn(2))
 	slow := time.Duration(rng.Intn(3)) * time.Millisecond
 	slowSync := time.Duration(rng.Intn(3)) * time.Millisecond
+	if mostlyOnDisk {
+		// contract cases: exclusive methods always dwell, so that a forbidden overlap has a width
+		slow = time.Duration(1+rng.Intn(4)) * time.Millisecond
+		slowSync = time.Duration(1+rng.Intn(4)) * time.Millisecond
+	}
 	cycles := 8 + rng.Intn(6)
 	fmt.Printf("catch-up case %d sm %s store %s snapshotEntries %d overhead %d slowPrepare %v slowSync %v cycles %d\n", caseNo, kind, store, snap, overhead, slow, slowSync, cycles)
 	c := cluster.NewCluster(cluster.Options{Hosts: 4, Seed: seed, RTTMs: 5, Store: store,
